@@ -8,7 +8,8 @@ a schedule, one line per event, and answers what the model does.
 Lines (`<tid>`, `<sid>`, `<id>`, `<n>` decimal; `<io>` = `ok` | `faillog` | `failstore`; `-` = none):
 
 * `init <root>`                                       → `ok`   (fresh state, all threads idle)
-* `call <tid> begin <sid>` / `beginov <sid>` / `end <sid>` / `sread <sid>` / `nread <sid>` / `root`
+* `call <tid> begin <sid>` / `beginov <sid> <base>` (session on an overlay chain built on the state with root `base`) / `end <sid>` (drop) /
+  `finish <sid>` (`Session::finish`: refused with `err-superseded` if the chain's base is not the committed root) / `sread <sid>` / `nread <sid>` / `root`
 * `call <tid> commit <base> <new> <delta|-> <io>` / `trycommit …` (same fields)
 * `call <tid> ovcommit <base> <new> <delta|-> <id> <parent|-> <io>` / `ovtrycommit …` / `ovcommit-holdm …`
 * `call <tid> rollback <n> <io>`                      → `started` | `misuse` (the thread is inside a call)
@@ -26,7 +27,7 @@ Lines (`<tid>`, `<sid>`, `<id>`, `<n>` decimal; `<io>` = `ok` | `faillog` | `fai
 * `enabled <tid>`                                     → `idle` | `enabled <µstep>` | `blocked <µstep> by <tids>`
 * `state`                                             → one line with the lock words, the committed state and the ghost history
 
-Micro-step names: `A.read A.read_unlock A.write1 A.write2 A.try_write A.write_unlock M.lock M.unlock sess_root
+Micro-step names: `A.read A.read_unlock A.write1 A.write2 A.try_write A.write_unlock M.lock M.unlock sess_root sess_base fin_chk
 read_root sess_read chk_marker chk_poison chk_root chk_seen pub_root pub_rb log_push log_pop store store_rb ret`.
 -/
 namespace Nomt.Driver
@@ -38,7 +39,7 @@ abbrev lOps : DbOps String String String String := stampOps String
 def instrName : Instr String String String → String
   | .aRead _ => "A.read" | .aReadUnlock _ => "A.read_unlock" | .aWrite1 => "A.write1" | .aWrite2 => "A.write2"
   | .aTryWrite => "A.try_write" | .aWriteUnlock _ => "A.write_unlock" | .mLock => "M.lock" | .mUnlock => "M.unlock"
-  | .sessRoot _ => "sess_root" | .readRoot => "read_root" | .sessRead _ => "sess_read"
+  | .sessRoot _ => "sess_root" | .sessBase _ _ => "sess_base" | .finChk _ => "fin_chk" | .readRoot => "read_root" | .sessRead _ => "sess_read"
   | .chkMarker _ => "chk_marker" | .chkPoison => "chk_poison" | .chkRoot _ => "chk_root" | .chkSeen => "chk_seen"
   | .pubRoot _ _ => "pub_root" | .pubRb => "pub_rb" | .logPush _ _ => "log_push" | .logPop _ => "log_pop"
   | .store _ _ => "store" | .storeRb _ => "store_rb" | .ret _ => "ret"
@@ -46,20 +47,20 @@ def instrName : Instr String String String → String
 def inameStr : IName → String
   | .aRead => "A.read" | .aReadUnlock => "A.read_unlock" | .aWrite1 => "A.write1" | .aWrite2 => "A.write2"
   | .aTryWrite => "A.try_write" | .aWriteUnlock => "A.write_unlock" | .mLock => "M.lock" | .mUnlock => "M.unlock"
-  | .sessRoot => "sess_root" | .readRoot => "read_root" | .sessRead => "sess_read"
+  | .sessRoot => "sess_root" | .sessBase => "sess_base" | .finChk => "fin_chk" | .readRoot => "read_root" | .sessRead => "sess_read"
   | .chkMarker => "chk_marker" | .chkPoison => "chk_poison" | .chkRoot => "chk_root" | .chkSeen => "chk_seen"
   | .pubRoot => "pub_root" | .pubRb => "pub_rb" | .logPush => "log_push" | .logPop => "log_pop"
   | .store => "store" | .storeRb => "store_rb" | .ret => "ret"
 
 def allINames : List IName :=
-  [.aRead, .aReadUnlock, .aWrite1, .aWrite2, .aTryWrite, .aWriteUnlock, .mLock, .mUnlock, .sessRoot, .readRoot,
+  [.aRead, .aReadUnlock, .aWrite1, .aWrite2, .aTryWrite, .aWriteUnlock, .mLock, .mUnlock, .sessRoot, .sessBase, .finChk, .readRoot,
    .sessRead, .chkMarker, .chkPoison, .chkRoot, .chkSeen, .pubRoot, .pubRb, .logPush, .logPop, .store, .storeRb, .ret]
 
 def parseIName (s : String) : Option IName := allINames.find? (fun n => inameStr n == s)
 
 def resName : Res → String
   | .ok => "ok" | .done => "done" | .busy => "busy" | .errPoisoned => "err-poisoned" | .errStale => "err-stale"
-  | .errParent => "err-parent" | .errNotEnough => "err-not-enough" | .errIo => "err-io"
+  | .errParent => "err-parent" | .errNotEnough => "err-not-enough" | .errIo => "err-io" | .errSuperseded => "err-superseded"
 
 def parseIo : String → Option IoPlan
   | "ok" => some .ok | "faillog" => some .failLog | "failstore" => some .failStore | _ => none
@@ -72,7 +73,8 @@ def parseCS (base new delta : String) : CS String String String :=
 
 def parseCall : List String → Option (Call String String String)
   | ["begin", sid] => sid.toNat?.map .beginSession
-  | ["beginov", sid] => sid.toNat?.map .beginSessionOv
+  | ["beginov", sid, base] => sid.toNat?.map (fun s => .beginSessionOv s base)
+  | ["finish", sid] => sid.toNat?.map .finishSession
   | ["end", sid] => sid.toNat?.map .endSession
   | ["sread", sid] => sid.toNat?.map .sessRead
   | ["nread", sid] => sid.toNat?.map .nomtRead
